@@ -109,6 +109,7 @@ func (p *Protocol) checkTask(taskID string, pids []string, faildJobs map[string]
 
 	faildJob := v.(map[int64]bool)
 	for blockheight := range faildJob {
+		verifDlGate(p, "recheck", blockheight, nil, nil, nil)
 		jobS := p.initJob(pids, taskID)
 		log.Warn("checkTask<<<<<<<<<<", "taskID", taskID, "faildJob", blockheight)
 		p.downloadBlock(blockheight, jobS)
